@@ -432,7 +432,7 @@ func (g *GroupWorld) spawnPod(s *Stream, edge bool) *v1.Pod {
 		shape = "no-containers"
 	}
 	if g.w.cfg.OddObjects && s.Chance(0.04) { // absurd but valid request: totals beyond 2^63/1e5 bytes
-		p.Spec.Containers = append(p.Spec.Containers, mkc("huge", "100m", []string{"90Ti", "200Ti", "1Pi"}[s.Intn(3)]))
+		p.Spec.Containers = append(p.Spec.Containers, mkc("huge", "100m", []string{"90Ti", "200Ti", "1Pi", "9Pi"}[s.Intn(4)]))
 		shape += "+huge-mem"
 	}
 	g.w.stats.Shapes["pod:"+shape]++
